@@ -88,3 +88,206 @@ Definition ex_where : expr :=
     (EBin 0 OGt (EBin 0 OAdd (ECall 0 (EName 0 "int") [EField 0 ValueKW]) (ENum 0 "1")) (ENum 0 "12"))
     (EBin 0 OOr (EBin 0 OIn (EField 0 KeyKW) (EList 0 [EStr 0 "a"; EStr 0 "b"]))
                 (EBin 0 OBetween (EField 0 KeyKW) (EList 0 [EStr 0 "k"; EStr 0 "l"]))).
+
+(* ============================================================================================
+   FROM THE QUERY TEXT.  Model/Pipeline.v [select_text] is the twin of
+   kvql.NewOptimizer(q).BuildPlan(store) + the caller's Next / Batch loop for `select * where P`
+   and `where P`: lexer, statement parser, checker (with the field context parseSelect builds for
+   `*`), function-call check, constant folding of the WHERE tree, region inference ON THE FOLDED
+   TREE, scan node choice, scan + FilterExec.Filter on the folded tree + `*` projection -- in the
+   order of optimizer.go.  Corr/C01Text.v compares it with the implementation on every run.      *)
+From KV Require Import Model.Checker Model.Fold Model.Pipeline Proofs.FoldProofs Proofs.PipelineProofs.
+
+(* END TO END FROM THE TEXT.  For every float structure, regexp oracle pair (assumed to agree),
+   float formatter that re-parses to the same float (fmt "%v"), query text q, store d and mode:
+   if the parser twin reads q as `select * where P` / `where P` ([parsed_where]: P is the tree the
+   parser returns, unchecked and unfolded), d is strictly sorted by key, P is evaluable on every
+   stored pair under the reference semantics, every re-association of a float chain the folder
+   performs on the checked tree is exact on the stored pairs (C04's premise [reassoc_exact]:
+   (x + c1) + c2 -> x + (c1 + c2) is not an identity of binary64; it is vacuous for trees without
+   float operands in + / * chains), the batch size is >= 1, and the pipeline returns rows, THEN the
+   rows are exactly the stored pairs on which the reference semantics of the PARSED tree is true,
+   each once, with their values, in key order. *)
+Theorem select_text_exact :
+  forall (fo : fops) (re_match : bytes -> bytes -> Value.res bool) (re_spec : bytes -> bytes -> option bool)
+         (fmt_v : F fo -> string),
+  (forall p t b, re_spec p t = Some b -> re_match p t = Value.Ok b) ->
+  (forall f, f_parse fo (fmt_v f) = PF_ok f) ->
+  forall (q : string) (d : store) (m : tmode) (rows : list kvp) (names : list (string * expr)) (P : expr),
+  parsed_where q = TOk (names, P) ->
+  ssorted d ->
+  (forall kv, In kv d -> evaluable fo re_spec P kv) ->
+  (forall w2, checked_where fo q = TOk w2 ->
+     forall kv, In kv d -> reassoc_exact fo re_match fmt_v w2 (fst kv) (snd kv)) ->
+  mode_ok m ->
+  select_text fo re_match fmt_v q d m = TOk rows ->
+  rows = filter (selects fo re_spec P) d.
+Proof. exact select_text_exact_lemma. Qed.
+Print Assumptions select_text_exact.
+
+(* ... and a plan built by the front end alone gives the rows: once the text is accepted and
+   planned, the drain cannot fail *)
+Theorem select_text_accepted_runs :
+  forall (fo : fops) (re_match : bytes -> bytes -> Value.res bool) (re_spec : bytes -> bytes -> option bool)
+         (fmt_v : F fo -> string),
+  (forall p t b, re_spec p t = Some b -> re_match p t = Value.Ok b) ->
+  (forall f, f_parse fo (fmt_v f) = PF_ok f) ->
+  forall (q : string) (d : store) (m : tmode) (names : list (string * expr)) (P : expr) (pl : planned),
+  parsed_where q = TOk (names, P) ->
+  plan_text fo re_match fmt_v q = TOk pl ->
+  ssorted d ->
+  (forall kv, In kv d -> evaluable fo re_spec P kv) ->
+  (forall w2, checked_where fo q = TOk w2 ->
+     forall kv, In kv d -> reassoc_exact fo re_match fmt_v w2 (fst kv) (snd kv)) ->
+  mode_ok m ->
+  select_text fo re_match fmt_v q d m = TOk (filter (selects fo re_spec P) d).
+Proof. exact select_text_accepted_runs_lemma. Qed.
+Print Assumptions select_text_accepted_runs.
+
+(* the checked tree of `where P` (no `select *`) is P itself: there is no field to resolve *)
+Theorem where_text_checks_to_itself :
+  forall (fo : fops) (q : string) (P w2 : expr),
+  parsed_where q = TOk ([], P) -> checked_where fo q = TOk w2 -> w2 = P.
+Proof. exact checked_where_plain. Qed.
+Print Assumptions where_text_checks_to_itself.
+
+(* the two layer facts the composition needed beyond C02 / C04 / C14:
+   resolving field names keeps every reference value ... *)
+Theorem check_keeps_reference_value :
+  forall (fo : fops) (re_spec : bytes -> bytes -> option bool) (ctx : cctx) (k v : bytes)
+         (e e1 : expr) (s : sval fo),
+  check fo true ctx e = Value.Ok e1 -> sem fo re_spec k v e = Some s ->
+  sem fo re_spec k v (rewrite_name (c_names ctx) e1) = Some s.
+Proof. exact check_sem_mono. Qed.
+Print Assumptions check_keeps_reference_value.
+
+(* ... and the region inferred for a tree covers every pair on which FilterExec.Filter's twin
+   answers true (C02's theorem at the level of the evaluator twin, as needed for the FOLDED tree,
+   whose literals need not be in the reference semantics' domain) *)
+Theorem filter_true_is_covered :
+  forall (fo : fops) (re_match : bytes -> bytes -> Value.res bool) (k v : bytes) (e : expr),
+  filter_row fo re_match k v e = Value.Ok true -> covers (FilterOpt.optimize e) k = true.
+Proof. exact filter_true_covered. Qed.
+Print Assumptions filter_true_is_covered.
+
+(* THE FRONT END IS TOTAL: for EVERY text, planning ends in a plan, in a syntax error with a
+   position (-1: end of input), or at the explicit model boundary -- never in a panic of the
+   parser / checker twins, never out of fuel ... *)
+Theorem select_text_rejects_or_runs :
+  forall (fo : fops) (re_match : bytes -> bytes -> Value.res bool) (fmt_v : F fo -> string) (q : string),
+  (exists pl, plan_text fo re_match fmt_v q = TOk pl) \/
+  (exists p, plan_text fo re_match fmt_v q = TReject p) \/
+  plan_text fo re_match fmt_v q = TOom.
+Proof. exact select_text_rejects_or_runs_lemma. Qed.
+Print Assumptions select_text_rejects_or_runs.
+
+(* ... and so does the whole pipeline on a sorted store with a batch size >= 1 *)
+Theorem select_text_total :
+  forall (fo : fops) (re_match : bytes -> bytes -> Value.res bool) (fmt_v : F fo -> string)
+         (q : string) (d : store) (m : tmode),
+  ssorted d -> mode_ok m ->
+  (exists rows, select_text fo re_match fmt_v q d m = TOk rows) \/
+  (exists p, select_text fo re_match fmt_v q d m = TReject p) \/
+  select_text fo re_match fmt_v q d m = TOom.
+Proof. exact select_text_total_lemma. Qed.
+Print Assumptions select_text_total.
+
+(* non-vacuity: a query text (keyword case, tight spacing, trailing semicolon) and a 4-pair store
+   on which every premise of select_text_exact holds; the prefix region and the filter leave two
+   of the four pairs, row-at-a-time and in batches of 2 -- for every float structure (no float
+   operation is needed) *)
+Definition ex_text : string := "SELECT * where key^='a' & int(value)+1 > 12;".
+Definition ex_text_store : store := [("a", "12"); ("ab", "3"); ("abc", "20"); ("b", "50")].
+Definition ex_text_tree : expr :=
+  EBin 24 OAnd (EBin 18 OPrefixMatch (EField 15 KeyKW) (EStr 20 "a"))
+               (EBin 39 OGt (EBin 36 OAdd (ECall 26 (EName 26 "int") [EField 30 ValueKW]) (ENum 37 "1"))
+                            (ENum 41 "12")).
+
+Example select_text_exact_nonvacuous :
+  forall (fo : fops) (re_match : bytes -> bytes -> Value.res bool) (re_spec : bytes -> bytes -> option bool)
+         (fmt_v : F fo -> string),
+    parsed_where ex_text = TOk ([("KEY", EField 0 KeyKW); ("VALUE", EField 0 ValueKW)], ex_text_tree) /\
+    checked_where fo ex_text = TOk ex_text_tree /\
+    ssorted ex_text_store /\
+    (forall kv, In kv ex_text_store -> evaluable fo re_spec ex_text_tree kv) /\
+    (forall kv, In kv ex_text_store -> reassoc_exact fo re_match fmt_v ex_text_tree (fst kv) (snd kv)) /\
+    mode_ok (MBatch 2) /\
+    select_text fo re_match fmt_v ex_text ex_text_store MRow = TOk [("a", "12"); ("abc", "20")] /\
+    select_text fo re_match fmt_v ex_text ex_text_store (MBatch 2) = TOk [("a", "12"); ("abc", "20")] /\
+    filter (selects fo re_spec ex_text_tree) ex_text_store = [("a", "12"); ("abc", "20")].
+Proof.
+  intros fo re_match re_spec fmt_v.
+  split; [vm_compute; reflexivity|].
+  split; [vm_compute; reflexivity|].
+  split; [vm_compute; repeat split|].
+  split.
+  { intros kv Hin. cbn [In ex_text_store] in Hin.
+    destruct Hin as [<-|[<-|[<-|[<-|[]]]]]; eexists; vm_compute; reflexivity. }
+  split.
+  { intros kv Hin. cbn [In ex_text_store] in Hin.
+    destruct Hin as [<-|[<-|[<-|[<-|[]]]]]; vm_compute; repeat split. }
+  split; [cbn; auto|].
+  split; [vm_compute; reflexivity|].
+  split; vm_compute; reflexivity.
+Qed.
+
+(* non-vacuity with the constant folder at work: `where P` alone, a literal concatenation next to
+   key and an integer chain that is re-associated.  The parsed tree compares key with 'a' + 'b'
+   (no point read could be planned for it); the plan is built from the FOLDED tree -- the filter is
+   key = 'ab' & int(value) + 2 > 4 and the scan is the point read of "ab" -- and the theorem's
+   premises hold for the PARSED tree; the rows are those the reference semantics of the parsed
+   tree selects *)
+Definition ex_fold_text : string := "where key = 'a' + 'b' & int(value) + 1 + 1 > 4".
+Definition ex_fold_tree : expr :=
+  EBin 22 OAnd
+    (EBin 10 OEq (EField 6 KeyKW) (EBin 16 OAdd (EStr 12 "a") (EStr 18 "b")))
+    (EBin 43 OGt
+       (EBin 39 OAdd (EBin 35 OAdd (ECall 24 (EName 24 "int") [EField 28 ValueKW]) (ENum 37 "1")) (ENum 41 "1"))
+       (ENum 45 "4")).
+
+Example select_text_exact_nonvacuous_folded :
+  forall (fo : fops) (re_match : bytes -> bytes -> Value.res bool) (re_spec : bytes -> bytes -> option bool)
+         (fmt_v : F fo -> string),
+    parsed_where ex_fold_text = TOk ([], ex_fold_tree) /\
+    plan_text fo re_match fmt_v ex_fold_text =
+      TOk (Planned (EBin 22 OAnd (EBin 10 OEq (EField 6 KeyKW) (EStr 12 "ab"))
+                      (EBin 43 OGt (EBin 39 OAdd (ECall 24 (EName 24 "int") [EField 28 ValueKW]) (ENum 37 "2"))
+                                   (ENum 45 "4")))
+                   (PScan (SMget ["ab"]))) /\
+    (forall kv, In kv ex_text_store -> evaluable fo re_spec ex_fold_tree kv) /\
+    (forall kv, In kv ex_text_store -> reassoc_exact fo re_match fmt_v ex_fold_tree (fst kv) (snd kv)) /\
+    select_text fo re_match fmt_v ex_fold_text ex_text_store MRow = TOk [("ab", "3")] /\
+    select_text fo re_match fmt_v ex_fold_text ex_text_store (MBatch 3) = TOk [("ab", "3")] /\
+    filter (selects fo re_spec ex_fold_tree) ex_text_store = [("ab", "3")].
+Proof.
+  intros fo re_match re_spec fmt_v.
+  split; [vm_compute; reflexivity|].
+  split; [vm_compute; reflexivity|].
+  split.
+  { intros kv Hin. cbn [In ex_text_store] in Hin.
+    destruct Hin as [<-|[<-|[<-|[<-|[]]]]]; eexists; vm_compute; reflexivity. }
+  split.
+  { intros kv Hin. cbn [In ex_text_store] in Hin.
+    destruct Hin as [<-|[<-|[<-|[<-|[]]]]]; reassoc_close fo re_match fmt_v ex_fold_tree. }
+  split; [vm_compute; reflexivity|].
+  split; vm_compute; reflexivity.
+Qed.
+
+(* texts the front end rejects: a scalar function called with the wrong number of arguments
+   (found by checkStatementFunctionCalls after Parse, before any plan is built), with the position
+   of the call; and a text that ends too early, with the end-of-input position -1 *)
+Example select_text_rejects_example :
+  forall (fo : fops) (re_match : bytes -> bytes -> Value.res bool) (fmt_v : F fo -> string),
+    plan_text fo re_match fmt_v "select * where int(value, 1) > 2" = TReject 15 /\
+    plan_text fo re_match fmt_v "select * where key = 'a' &" = TReject (-1).
+Proof. intros. split; vm_compute; reflexivity. Qed.
+
+(* the field context of `select *`: parseSelect names the two fields of `*` "KEY" and "VALUE", so
+   a back-quoted name `KEY` in the WHERE clause of `select *` is resolved to the key field, while
+   `where P` alone has no fields and the same name is rejected (position of the name) *)
+Example star_field_context_example :
+  forall (fo : fops),
+    checked_where fo "select * where `KEY` = 'a'"
+      = TOk (EBin 21 OEq (ERef 15 "KEY" (EField 0 KeyKW)) (EStr 23 "a")) /\
+    checked_where fo "where `KEY` = 'a'" = TReject 6.
+Proof. intros. split; vm_compute; reflexivity. Qed.
